@@ -246,15 +246,24 @@ pub fn json_random(out: &str, thorough: bool, seed: u64) {
             match rng.gen_range(0, 10) {
                 0 => special[rng.gen_range(0, special.len())],
                 1 => f64::from_bits(rng.gen::<u64>() & 0x7fef_ffff_ffff_ffff), // any finite magnitude
+                // values that are exact in single precision but have a long decimal expansion
+                2 => (lo as f32 + (hi - lo) as f32 * rng.gen::<f32>()) as f64,
                 _ => lo + (hi - lo) * rng.gen::<f64>(),
             }
         };
         // the cell stays inside its declared range (an exact image search costs 1/cell area);
         // site coordinates and orientation take any finite value
+        let single = |rng: &mut rand_pcg::Pcg64Mcg, lo: f64, hi: f64| -> f64 {
+            if rng.gen_range(0, 4) == 0 {
+                (lo as f32 + (hi - lo) as f32 * rng.gen::<f32>()) as f64
+            } else {
+                lo + (hi - lo) * rng.gen::<f64>()
+            }
+        };
         let vals = [
-            0.5 + 19.5 * rng.gen::<f64>(),
-            0.1 + 0.9 * rng.gen::<f64>(),
-            0.5236 + 1.047 * rng.gen::<f64>(),
+            single(&mut rng, 0.5, 20.),
+            single(&mut rng, 0.1, 1.),
+            single(&mut rng, 0.5236, 1.5707),
             pick(&mut rng, -0.5, 0.5),
             pick(&mut rng, -0.5, 0.5),
             pick(&mut rng, 0., 6.3),
